@@ -11,17 +11,17 @@ import (
 
 // Exec is one worker: term table, solver, DFS work list.
 type Exec struct {
-	prog   *Program
-	tt     *TermTable
-	solver *Solver
-	alt    *Solver // cvc5 --solve-bv-as-int for arithmetic kernels (lazy)
-	abs    *Solver // z3 with division abstracted (lazy)
-	work   []*State
-	cfg    Config
-	stats  ExecStats
-	out    *ItemResult
-	funcs  map[string]int // functions interpreted (call counts)
-	debug  bool
+	prog        *Program
+	tt          *TermTable
+	solver      *Solver
+	alt         *Solver // cvc5 --solve-bv-as-int for arithmetic kernels (lazy)
+	abs         *Solver // z3 with division abstracted (lazy)
+	work        []*State
+	cfg         Config
+	stats       ExecStats
+	out         *ItemResult
+	funcs       map[string]int // functions interpreted (call counts)
+	debug       bool
 	lastFromAlt bool
 }
 
@@ -35,6 +35,10 @@ type Config struct {
 	Trace       bool
 	SecondCheck bool
 	MaxAlloc    int
+	CutCalls    []string
+	// SplitCutLarge: a case split with more than SplitCap feasible values explores the values below SplitCap and
+	// cuts the rest instead of ending the path as inconclusive (spec policy "splitcap": "cut")
+	SplitCutLarge bool
 }
 
 type ExecStats struct {
@@ -230,6 +234,23 @@ func (ex *Exec) concretize(st *State, t *Term, why string) uint64 {
 		var alts []alt
 		var excl []*Term
 		cap_ := ex.cfg.SplitCap
+		if st.splitCap > 0 {
+			cap_ = st.splitCap
+		}
+		if ex.cfg.SplitCutLarge {
+			// policy "cut": values below the cap are explored one by one; if larger values are feasible as well
+			// their continuation is cut (counted, stated as a bound). Obligations at the site (bounds checks,
+			// allocation limit) were discharged for every value before this point.
+			large := ex.tt.Not(ex.tt.Ult(t, C(t.W, uint64(cap_))))
+			if r := ex.solver.Check(st.pc, large); r != Unsat {
+				ex.solver.DonePending()
+				if ex.out.Cuts == nil {
+					ex.out.Cuts = map[string]int{}
+				}
+				ex.out.Cuts["values >= split cap of "+why]++
+				excl = append(excl, ex.tt.Not(large))
+			}
+		}
 		for {
 			cond := tTrue
 			for _, e := range excl {
@@ -260,6 +281,60 @@ func (ex *Exec) concretize(st *State, t *Term, why string) uint64 {
 		}
 		return alts
 	}))
+}
+
+// concretizeUpTo is concretize that gives up (returns ok=false, adding nothing to the path condition) when t has
+// more than k feasible values.
+func (ex *Exec) concretizeUpTo(st *State, t *Term, why string, k int) (uint64, bool) {
+	if t.IsConst() {
+		return t.Val, true
+	}
+	const keep = int64(-1) << 62
+	r := ex.decide(st, func() []alt {
+		var alts []alt
+		var excl []*Term
+		for {
+			cond := tTrue
+			for _, e := range excl {
+				cond = ex.tt.And(cond, e)
+			}
+			var r SatResult
+			if cond.IsConst() {
+				r = ex.solver.Check(st.pc, nil)
+			} else {
+				r = ex.solver.Check(st.pc, cond)
+			}
+			if r == Unsat {
+				break
+			}
+			if r == Unknown {
+				ex.solver.DonePending()
+				return []alt{{nil, keep}}
+			}
+			v := ex.solver.GetValue(t)
+			ex.solver.DonePending()
+			if len(alts) >= k {
+				return []alt{{nil, keep}}
+			}
+			alts = append(alts, alt{ex.tt.Eq(t, C(t.W, v)), int64(v)})
+			excl = append(excl, ex.tt.Ne(t, C(t.W, v)))
+		}
+		return alts
+	})
+	if r == keep {
+		return 0, false
+	}
+	return uint64(r), true
+}
+
+// forceLen turns a slice of symbolic length into one of concrete length by case split.
+func (ex *Exec) forceLen(st *State, s SliceVal) SliceVal {
+	if !s.SymLen() {
+		return s
+	}
+	n := int(ex.concretize(st, s.LenT, "slice length"))
+	s.Len, s.LenT = n, nil
+	return s
 }
 
 // ---------- value helpers ----------
